@@ -85,6 +85,15 @@ func safeIdentifier(name string) string {
 	return name
 }
 
+// safeIdentifiers applies safeIdentifier to every name of a list.
+func safeIdentifiers(names []string) []string {
+	out := make([]string, len(names))
+	for i, n := range names {
+		out[i] = safeIdentifier(n)
+	}
+	return out
+}
+
 // escapeStringLiteral escapes a string for safe inclusion in a single-quoted
 // SQL literal, handling characters that can lead to SQL injection.
 func escapeStringLiteral(s string) string {
@@ -1414,10 +1423,10 @@ func forSQL(f *ForClause) string {
 func cteSQL(cte *CommonTableExpr) string {
 	sb := getBuilder()
 	defer putBuilder(sb)
-	sb.WriteString(cte.Name)
+	sb.WriteString(safeIdentifier(cte.Name))
 	if len(cte.Columns) > 0 {
 		sb.WriteString(" (")
-		sb.WriteString(strings.Join(cte.Columns, ", "))
+		sb.WriteString(strings.Join(safeIdentifiers(cte.Columns), ", "))
 		sb.WriteString(")")
 	}
 	sb.WriteString(" AS ")
